@@ -90,17 +90,18 @@ B = lambda n: ("builtin", n)  # noqa: E731
 BOUNDARY = ["\t", " ", "-", "0", "9", "A", "Z", "[", "\\", "]", "^", "a", "z", "~", "\x7f", "\x80", "\xff", "\u212a", "\ud7ff", "\ue000", "\uffff", "\U00010000", "\U0010ffff"]
 
 QUICK = [
-    B("ANY"), B("NEWLINE"), B("ASCII_HEX_DIGIT"), B("ASCII_ALPHA"),
-    rng("a", "z"), rng("Z", "a"), rng("\x7f", "\x80"), rng("\ud7ff", "\ue000"), rng("\uffff", "\U00010000"), rng("K", "K"),
-    lit("k"), lit("]"), ("ci", "k"),
+    B("ANY"), B("ASCII_HEX_DIGIT"),
+    rng("a", "z"), rng("Z", "a"), rng("\ud7ff", "\ue000"),
+    lit("k"), ("ci", "k"),
     ("alt", (rng("a", "c"), lit("-"), lit("]"), lit("^"))),
     ("alt", (lit("["), lit("\\"), rng("x", "z"), rng("y", "~"))),
     ("alt", (B("ASCII_DIGIT"), lit("a"), ("ci", "s"))),
 ]
+QUICK_EXTRA_THOROUGH = [rng("\uffff", "\U00010000"), rng("K", "K"), lit("]"), B("ASCII_ALPHA"), rng("\x7f", "\x80")]
 
 
 def thorough_family():
-    fam = [B(n) for n in ASCII] + [e for e in QUICK if e[0] != "builtin"]
+    fam = [B(n) for n in ASCII] + [e for e in QUICK + QUICK_EXTRA_THOROUGH if e[0] != "builtin"]
     special = set("-[]\\^~&|")
     cased = set("AZazK\u212a")
     for i, a in enumerate(BOUNDARY):
@@ -265,7 +266,7 @@ def run(tier: str) -> int:
     exprs = list(QUICK) if tier == "quick" else thorough_family()
     props = unicode_rule_names()
     if tier == "quick":
-        prop_exprs = [B(n) for n in ("UPPERCASE_LETTER", "WHITE_SPACE") if n in props]
+        prop_exprs = [B(n) for n in ("UPPERCASE_LETTER",) if n in props]
     else:
         prop_exprs = [B(n) for n in props]
     for n in props:
@@ -273,7 +274,7 @@ def run(tier: str) -> int:
     step = N_CP // SLICES
     payloads = []
     all_exprs = exprs + prop_exprs
-    group = 6 if tier == "quick" else 8
+    group = 5 if tier == "quick" else 8
     for gi in range(0, len(all_exprs), group):
         for lo in range(0, N_CP, step * (4 if tier == "quick" else 2)):
             payloads.append((all_exprs[gi:gi + group], lo, min(N_CP, lo + step * (4 if tier == "quick" else 2)), set(props)))
